@@ -443,13 +443,9 @@ pub fn apply<C: Autocomplete + Help>(s: &Sess, e: &Ev) -> (Sess, Vec<CallObs>) {
 }
 
 pub fn struct_hash(cli: &CliT) -> u64 {
-    let e = cli.__verif_editor().map(|e| e.__verif_struct_hash()).unwrap_or(0);
-    #[cfg(feature = "history")]
-    let h = cli.__verif_history().__verif_struct_hash();
-    #[cfg(not(feature = "history"))]
-    let h = 0u64;
-    let d = cli.__verif_input_generator().map(|g| g.__verif_canonical_hash()).unwrap_or(0);
-    e ^ h.rotate_left(17) ^ d.rotate_left(34)
+    // derived Hash over every field of the real Cli (editor, history, decoder - canonicalised -, prompt and
+    // whatever a change adds); buffers contribute their size only, the sink nothing
+    cli.__verif_struct_hash()
 }
 
 /// Canonical key of a session (DESIGN 3.2)
